@@ -54,6 +54,14 @@ class Domain:
         if n in ('is_finite',):
             return True if self.finite else None
         if n in ('lt', 'le', 'eq', 'gt', 'ge', 'ne') and len(atom[2]) == 2:
+            a, b = atom[2]
+            # exp is strictly increasing on the reals: exp(x) ~ exp(y) iff x ~ y
+            while a[0] == 'op' and a[1] in ('f2f',) and len(a[2]) == 1:
+                a = a[2][0]
+            while b[0] == 'op' and b[1] in ('f2f',) and len(b[2]) == 1:
+                b = b[2][0]
+            if a[0] == 'op' and b[0] == 'op' and a[1] == 'exp' and b[1] == 'exp':
+                return self.atom_value(('op', n, (a[2][0], b[2][0])))
             try:
                 d = self.nf.sub(self.nf.of_term(atom[2][0]), self.nf.of_term(atom[2][1]))
                 s = self.sign(d)
